@@ -2,7 +2,7 @@
 lightning-types items).  Each handler: h(E, match, func, argv, guard, mem, dest_ty, caller)."""
 import re
 import z3
-from .exec import (I, B, Tup, Adt, En, Ref, Clo, Seq, It, Opaque, UNIT, DIVERGE, Unsupported,
+from .exec import (I, B, Tup, Adt, En, Ref, Clo, Seq, It, Opaque, UNIT, DIVERGE, Unsupported, Abs, ABS_HASH,
                    INT_TYS, And, Or, Not, If, zint, zbool, simp, split_generic)
 from . import mir as M
 
@@ -942,6 +942,32 @@ def install(E):
         return Ref(r.cell, r.path + (('i', idx.t),))
     reg(r'^<(?:std::vec::)?Vec<.*> as (?:std::ops::)?Index(?:Mut)?<usize>>::index(?:_mut)?$', h_index)
     reg(r'^<\[.*\] as (?:std::ops::)?Index(?:Mut)?<usize>>::index(?:_mut)?$', h_index)
+
+    # ---- abstract byte arrays (secrets / hashes) ------------------------------------------
+    def h_abs_hash(E, m, func, argv, guard, mem, dty, caller):
+        v = deref(E, argv[0], mem, guard)
+        if isinstance(v, Abs):
+            return Abs(ABS_HASH(v.t), 32)
+        return NotImplemented
+    reg(r'sha256::Hash as (?:\w+::)*Hash>::hash$|^<Hash as Hash>::hash$', h_abs_hash)
+
+    def h_abs_to_bytes(E, m, func, argv, guard, mem, dty, caller):
+        v = argv[0]
+        if isinstance(v, Abs):
+            return v
+        return NotImplemented
+    reg(r'Hash>::to_byte_array$|::to_byte_array$|::into_inner$', h_abs_to_bytes)
+
+    def h_array_eq(E, m, func, argv, guard, mem, dty, caller):
+        a, b = deref(E, argv[0], mem, guard), deref(E, argv[1], mem, guard)
+        if isinstance(a, Abs) or isinstance(b, Abs):
+            e = E.abs_eq(a, b)
+        elif isinstance(a, Tup) and isinstance(b, Tup) and len(a.fs) == len(b.fs):
+            e = E.binop('Eq', a, b, guard, func).t
+        else:
+            return NotImplemented
+        return B(e if m.group(1) == 'eq' else Not(e))
+    reg(r'^<\[\w+; \d+\] as PartialEq>::(eq|ne)$', h_array_eq)
 
     # ---- fixed arrays / byte slices ---------------------------------------------------
     def arr_ref(E, v, mem, guard):
